@@ -165,7 +165,7 @@ def run(prog: Program, res: Result, tier: str) -> None:
                             f"{v.raise_site} after {v.write_site}", v.where,
                             f"{tag}: `{v.raise_site}` can raise after the "
                             f"graph was already modified by `{v.write_site}`",
-                            path=list(v.path),
+                            path=list(v.path), context=list(w.visited),
                             instance=f"{tag}: {v.raise_site}")
             else:
                 res.ok("R-VALIDATE-FIRST", tag, fi.loc(),
@@ -186,7 +186,7 @@ def run(prog: Program, res: Result, tier: str) -> None:
                     res.bad("R-GUARD-EXISTS", f"{fi.short}: {kind}", fi.loc(),
                             f"{tag}: a request with {kind} can reach a normal "
                             "exit (no raising validation on every path)",
-                            instance=inst)
+                            instance=inst, context=list(w.visited))
     label_guards(prog, res)
     res.need("R-VALIDATE-FIRST", n, 50, "mutator x class instances")
     # third clause: lookups about absent atoms / bonds never change any view
